@@ -123,6 +123,10 @@ def build(idx, sym, spec, m=None, top=True):
         v = idx.mk('SourceMapSource', value=t, name=mkstr(spec.get('name', 'x.js')), source_map=smap(mt, mp),
                    original_source=(none() if spec.get('original_source') is None else some(mkstr(spec['original_source']))),
                    inner_source_map=inner_map, remove_original_source=bool(spec.get('remove_original_source', False)))
+    elif k == 'cached':
+        inner, ispec = build(idx, sym, spec['inner'], m, False); out['inner'] = ispec
+        from msx.contracts import DashMapV
+        v = idx.mk('CachedSource', inner=Ref(Cell(inner, tag='heap')), cached_hash=Ref(Cell(Agg([none()], 'OnceCell'), tag='heap')), cached_maps=Ref(Cell(DashMapV(), tag='heap')))
     elif k == 'boxed':
         inner, ispec = build(idx, sym, spec['inner'], m, False); out['inner'] = ispec
         return Ref(Cell(inner, tag='heap')), out
@@ -135,6 +139,7 @@ def build(idx, sym, spec, m=None, top=True):
         for i, r in enumerate(spec['replacements']):
             rr = dict(r)
             for key in ('start', 'end'):
+                if '_' + key in r: rr['_' + key] = r['_' + key]; continue      # equivalent tree over the SAME symbolic range
                 if r[key] == 'S': rr['_' + key] = rr['_start']
                 elif r[key] == '?':
                     v = z3.BitVec('r%d_%s_%d' % (sym.n, key, i), 32); sym.n += 1
@@ -301,6 +306,9 @@ def events_of(m, st, mdl, events, idx):
     return out
 
 
+def alt_prop_of(J): return getattr(J, 'alt_prop', 'C13')
+
+
 def disc_int(x):
     if isinstance(x.disc, int): return x.disc
     raise Inconclusive('symbolic discriminant in an observation')
@@ -346,6 +354,12 @@ def observe(m, J, st, root, tyname, spec, what, mf):
                     lim = IntV(z3.BitVec('wlimit', 64), 'usize'); s.pc.append(z3.ULE(zi(lim), text_len(spec) + 1))
                 wr = Ref(Cell(WriterV(lim))); s.extra['writer'] = wr
                 outs = api.call(m, s, '<%s as Source>::to_writer' % tyname, [src, wr])
+            elif w == 'hash':
+                from msx.textmodel import HasherV
+                hs = Ref(Cell(HasherV())); s.extra['hasher'] = hs
+                outs = api.call(m, s, '<%s as Hash>::hash::<HasherV>' % tyname, [src, hs])
+            elif w == 'clone':
+                outs = api.call(m, s, '<%s as Clone>::clone' % tyname, [src])
             elif w.startswith('map'):
                 outs = api.call(m, s, '<%s as Source>::map' % tyname, [src, map_options(idx, w == 'map1', False)])
             else:
@@ -357,7 +371,12 @@ def observe(m, J, st, root, tyname, spec, what, mf):
                 if kind != 'ret':
                     J.fail_path(m, s2, 'C17: %s panics on a source tree in its domain: %r' % (w, v), lambda mdl: dict(mf(mdl), panic_in=w)); continue
                 r2 = dict(raw)
-                if w in ('writer', 'writerfail'):
+                if w == 'clone':
+                    s2.extra['root'] = Ref(Cell(v))          # continue on the clone (it shares the caches)
+                    r2[w] = True
+                elif w == 'hash':
+                    r2[w] = list(sv(s2.extra['hasher']).log)
+                elif w in ('writer', 'writerfail'):
                     wv = sv(s2.extra['writer'])
                     r2[w] = (StrV(tuple(wv.buf)), v, wv.limit)
                 else:
@@ -378,6 +397,14 @@ def flatten(spec):
 
 def alt_of(spec, alt):
     if alt == 'flat': return flatten(spec)
+    if alt == 'uncached':
+        def strip(sp):
+            if sp['kind'] == 'cached': return strip(sp['inner'])
+            o = dict(sp)
+            if 'children' in sp: o['children'] = [strip(c) for c in sp['children']]
+            if 'inner' in sp: o['inner'] = strip(sp['inner'])
+            return o
+        return strip(spec)
     if alt == 'inner':
         sp = spec
         if sp['kind'] in ('concat', 'concat_add') and len(sp['children']) == 1: return sp['children'][0]
@@ -386,6 +413,39 @@ def alt_of(spec, alt):
             ne = [c for c in sp['children'] if text_len(c) > 0]
             if len(ne) == 1: return ne[0]
     raise Inconclusive('no %s alternative for this tree' % alt)
+
+
+def to_obs(m, s, mdl, raw, idx):
+    """raw observation values of one path -> concrete observation dict (raises Undetermined when the path leaves a value open)"""
+    from msx.contracts import as_str
+    obs = {'streams': {}, 'maps': {}}
+    for w, val in raw.items():
+        if w == 'source':
+            x = sv(val)
+            if isinstance(x, Enum): x = sv(x.payload[disc_int(x)].f[0])
+            obs['source'] = det_text(m, s, mdl, as_str(x))
+        elif w in ('rope', 'buffer'):
+            x = sv(val)
+            if isinstance(x, Enum): x = sv(x.payload[disc_int(x)].f[0])
+            if isinstance(x, RopeV): x = x.flat()
+            if isinstance(x, Agg): x = StrV(tuple(b.e for b in x.f))
+            obs.setdefault('views', {})[w] = det_text(m, s, mdl, x)
+        elif w == 'size':
+            obs.setdefault('views', {})['size'] = det_int(m, s, mdl, val)
+        elif w in ('clone', 'hash'):
+            pass
+        elif w == 'writer':
+            obs.setdefault('views', {})['writer'] = det_text(m, s, mdl, val[0])
+            if disc_int(val[1]) != 0: obs['views']['writer_err'] = True
+        elif w == 'writerfail':
+            obs.setdefault('views', {})['writerfail'] = {'written': det_text(m, s, mdl, val[0]), 'err': disc_int(val[1]) != 0, 'k': det_int(m, s, mdl, val[2])}
+        elif w.startswith('map'):
+            obs['maps']['c' + w[3]] = source_map_of(m, s, mdl, val, idx)
+        else:
+            evs, ret = val
+            obs['streams'][w] = {'events': events_of(m, s, mdl, evs, idx),
+                                 'end': [det_int(m, s, mdl, ret.f[idx.fld('GeneratedInfo', 'generated_line')]), det_int(m, s, mdl, ret.f[idx.fld('GeneratedInfo', 'generated_column')])]}
+    return obs
 
 
 def sub_roots(m, s, spec):
@@ -436,60 +496,11 @@ def finish(m, J, s, raw, spec, props, mf, depth=0, subs_raw=None, alt=None):
     mdl = J.model(m, s.pc)
     if mdl is None: return
     try:
-        obs = {'streams': {}, 'maps': {}, 'tree': concretize_spec(mdl, spec, m, s)}
-        for w, val in raw.items():
-            if w == 'source':
-                from msx.contracts import as_str
-                x = sv(val)
-                if isinstance(x, Enum): x = sv(x.payload[x.disc].f[0])
-                obs['source'] = det_text(m, s, mdl, as_str(x))
-            elif w in ('rope', 'buffer'):
-                x = sv(val)
-                if isinstance(x, Enum): x = sv(x.payload[disc_int(x)].f[0])
-                if isinstance(x, RopeV): x = x.flat()
-                if isinstance(x, Agg): x = StrV(tuple(b.e for b in x.f))
-                obs.setdefault('views', {})[w] = det_text(m, s, mdl, x)
-            elif w == 'size':
-                obs.setdefault('views', {})['size'] = det_int(m, s, mdl, val)
-            elif w == 'writer':
-                obs.setdefault('views', {})['writer'] = det_text(m, s, mdl, val[0])
-                if disc_int(val[1]) != 0: obs['views']['writer_err'] = True
-            elif w == 'writerfail':
-                obs.setdefault('views', {})['writerfail'] = {'written': det_text(m, s, mdl, val[0]), 'err': disc_int(val[1]) != 0, 'k': det_int(m, s, mdl, val[2])}
-            elif w.startswith('map'):
-                obs['maps']['c' + w[3]] = source_map_of(m, s, mdl, val, idx)
-            else:
-                evs, ret = val
-                obs['streams'][w] = {'events': events_of(m, s, mdl, evs, idx),
-                                     'end': [det_int(m, s, mdl, ret.f[idx.fld('GeneratedInfo', 'generated_line')]), det_int(m, s, mdl, ret.f[idx.fld('GeneratedInfo', 'generated_column')])]}
+        obs = to_obs(m, s, mdl, raw, idx); obs['tree'] = concretize_spec(mdl, spec, m, s)
         if alt:
-            ao = {'streams': {}, 'maps': {}}
-            for w, val in alt[2].items():
-                if w == 'source':
-                    from msx.contracts import as_str
-                    x = sv(val)
-                    if isinstance(x, Enum): x = sv(x.payload[x.disc].f[0])
-                    ao['source'] = det_text(m, s, mdl, as_str(x))
-                elif w.startswith('map'): ao['maps']['c' + w[3]] = source_map_of(m, s, mdl, val, idx)
-                else:
-                    evs, ret = val
-                    ao['streams'][w] = {'events': events_of(m, s, mdl, evs, idx), 'end': [det_int(m, s, mdl, ret.f[0]), det_int(m, s, mdl, ret.f[1])]}
-            obs['alt'] = ao; obs['alt_kind'] = alt[0]
+            obs['alt'] = to_obs(m, s, mdl, alt[2], idx); obs['alt_kind'] = alt[0]; obs['alt_prop'] = alt_prop_of(J)
         if subs_raw:
-            obs['subs'] = {}
-            for name, (sp, sraw) in subs_raw.items():
-                so = {'streams': {}, 'maps': {}}
-                for w, val in sraw.items():
-                    if w == 'source':
-                        from msx.contracts import as_str
-                        x = sv(val)
-                        if isinstance(x, Enum): x = sv(x.payload[x.disc].f[0])
-                        so['source'] = det_text(m, s, mdl, as_str(x))
-                    elif w.startswith('map'): so['maps']['c' + w[3]] = source_map_of(m, s, mdl, val, idx)
-                    else:
-                        evs, ret = val
-                        so['streams'][w] = {'events': events_of(m, s, mdl, evs, idx), 'end': [det_int(m, s, mdl, ret.f[0]), det_int(m, s, mdl, ret.f[1])]}
-                obs['subs'][name] = so
+            obs['subs'] = {name: to_obs(m, s, mdl, sraw, idx) for name, (sp, sraw) in subs_raw.items()}
     except Undetermined as u:
         if depth > 30: raise Inconclusive("observation not determined by the path after 30 case splits")
         for side in (u.expr, z3.Not(u.expr)):
@@ -513,23 +524,43 @@ def finish(m, J, s, raw, spec, props, mf, depth=0, subs_raw=None, alt=None):
     if len(J.samples) < 2: J.samples.append({'tree': obs['tree'], 'source': obs['source'], 'maps': obs['maps']})
 
 
-def tree_job(jid, tree, props=None, what=('source', 'rope', 'buffer', 'size', 'writer', 'c1f0', 'c0f0', 'c1f1', 'c0f1', 'map1', 'map0'), alphabet='q', flavour='mir', witnesses=(), subs=True, alt=None):
-    idx = api.load(flavour); m = api.machine(idx, loop_bound=64); J = Job(jid, m)
+def tree_job(jid, tree, props=None, what=('source', 'rope', 'buffer', 'size', 'writer', 'c1f0', 'c0f0', 'c1f1', 'c0f1', 'map1', 'map0'), alphabet='q', flavour='mir', witnesses=(), subs=True, alt=None, history=(), history_slots=0, history_ops=('map1', 'map0', 'c1f0', 'c0f0', 'source', 'hash', 'clone'), alt_prop='C13'):
+    idx = api.load(flavour); m = api.machine(idx, loop_bound=64); J = Job(jid, m); J.alt_prop = alt_prop
     st = State()
     sym = Sym(st, ALPHA[alphabet])
     root, spec = build(idx, sym, tree, m)
     if root is not None: st.extra['root'] = root if isinstance(root, Ref) else Ref(Cell(root))
     tyname = type_name(tree)
-    mf = lambda mdl: dict({'family': 'tree', 'tree': concretize_spec(mdl, spec), 'what': list(what), 'writer_limit': mval(mdl, z3.BitVec('wlimit', 64))}, **({'alt': alt_name, 'alt_tree': concretize_spec(mdl, alt_spec[0])} if alt_spec else {}))
+    mf = lambda mdl: dict({'family': 'tree', 'tree': concretize_spec(mdl, spec), 'what': list(what), 'writer_limit': mval(mdl, z3.BitVec('wlimit', 64)), 'history': list(history) + [history_ops[mval(mdl, z3.BitVec('hist%d' % i, 8)) % len(history_ops)] for i in range(history_slots)], 'alt_prop': alt_prop}, **({'alt': alt_name, 'alt_tree': concretize_spec(mdl, alt_spec[0])} if alt_spec else {}))
     alt_spec = []; alt_name = alt
     want_subs = subs and (props is None or any(p in ('C06',) for p in props))
-    if alt and (props is None or 'C13' in props):
+    if alt and (props is None or alt_prop in props):
         aspec0 = alt_of(spec, alt)
-        aroot, aspec = build(idx, sym, aspec0, m)
+        aroot, aspec = build(idx, sym, aspec0, m, False)
         alt_spec.append(aspec)
         st.extra['alt_root'] = aroot if isinstance(aroot, Ref) else Ref(Cell(aroot))
     else: alt = None
+    hist_states = []
     for st1 in prepare(m, J, st, spec, mf):
+        # call history before the observations: a fixed list and/or `history_slots` slots whose operation the solver picks
+        hs = [(st1, [])]
+        for _ in range(history_slots):
+            nx = []
+            for s_, chosen in hs:
+                sel = z3.BitVec('hist%d' % len(chosen), 8)
+                for k_, op in enumerate(history_ops):
+                    if m.feasible(s_, sel == k_):
+                        s2_ = s_.clone(); s2_.pc.append(sel == k_); s2_.model = None
+                        nx.append((s2_, chosen + [op]))
+            hs = nx
+        for s_, chosen in hs:
+            ops = list(history) + chosen
+            sts = [s_]
+            for op in ops:
+                sts = [s3 for s2_ in sts for s3, _ in observe(m, J, s2_, root, tyname, spec, [op], mf)]
+            for s3 in sts:
+                s3.extra['history'] = ops; hist_states.append(s3)
+    for st1 in hist_states:
         for s, raw in observe(m, J, st1, root, tyname, spec, what, mf):
             if props == ['C17']:
                 # panic freedom only: every observation returned normally on this path (panics were recorded by observe)
